@@ -23,6 +23,7 @@ def make_cases(rnd, tier, progs):
         for a, b in pairs:
             hist, nobs = modcheck.hist_with_obs(rnd, [(0, a, True), (0, b, True)], 1)
             out.append(dict(src=src, hist=hist, nobs=nobs, family="all-pairs-on-every-structured-program"))
+    out += modcheck.conversion_histories(rnd, "conversion-in-a-history")
     n = 600 if tier == "quick" else 10000
     for k in range(n):
         src = ps[k % len(ps)]
